@@ -51,6 +51,24 @@ PLAN = {
                   R("model", "^(TestModel|TestNote)$", checks=15000, steps=100, shards=16, timeout=3000),
                   R("fanout", "^TestFanOut$", checks=600, shards=8, timeout=3000)],
     ),
+    "C07": dict(
+        pkg="c07", level="exploration",
+        technique="differential (oracle-free) testing of two routers holding the same set: random mutation history versus fresh insertion in random order, and all permutations of small sets",
+        level_text="Router A runs a generated history (inserts, updates, deletes, truncates, committed/aborted/failed/panicking transactions); "
+                   "router B is filled with the surviving set in a random order with identical options; both must answer every probe "
+                   "(all methods incl. OPTIONS, hosts, slash-toggled paths) with the same Lookup route/params/tsr, status, handler, Location and Allow set. "
+                   "Sets of 2-5 routes are additionally inserted in every permutation.",
+        level_note="No reference needed; the history engine's model is only used to know the surviving set. Equality of outcomes is judged on sampled probes derived from every pattern used in the history.",
+        rule="cases: (options, history, insertion order, probes); counted evaluations are probes; non-trivial = the history deleted a key sharing a >=2-byte prefix "
+             "with a surviving key of the same method (a node merge), or a permutation case; distinct by options+history+order or options+set",
+        assumptions=["both routers are given identical options per surviving route"],
+        quick=[REPLAY,
+               R("histories", "^TestTwoHistories$", checks=8000, timeout=900),
+               R("permutations", "^TestPermutations$", checks=1500, timeout=900)],
+        thorough=[REPLAY,
+                  R("histories", "^TestTwoHistories$", checks=30000, shards=16, timeout=3000),
+                  R("permutations", "^TestPermutations$", checks=10000, shards=16, timeout=3000)],
+    ),
     "C08": dict(
         pkg="c08", level="exploration",
         technique="differential testing of trailing-slash detection and dispatch against the reference matcher applied to the slash-adjusted path, plus a metamorphic relation (irrelevant routes) and a resolve-the-Location round trip",
